@@ -4,5 +4,6 @@ let () =
   | _ :: "c05" :: path :: _ -> C05.run path
   | _ :: "c06" :: path :: _ -> C06.run path
   | _ :: "ps" :: path :: _ -> Ps.run path
+  | _ :: "rr" :: path :: _ -> Rr.run path
   | _ :: "c07" :: path :: _ -> C07.run path
   | _ -> prerr_endline "usage: driver <engine> <trace> [opts]"; exit 2
